@@ -25,7 +25,7 @@ type c08Event struct {
 var c08VariantNames = []string{"clean", "syntax", "unused", "undefined", "defglobal", "useglobal", "require", "requiremissing", "annoclass", "useannoclass", "dupkey"}
 
 // c08Variant renders content variant v for file index i of n files.
-func c08Variant(v string, i, n int) string {
+func c08Variant(v string, i, n int, layout string) string {
 	nxt := (i + 1) % n
 	switch v {
 	case "clean":
@@ -41,7 +41,7 @@ func c08Variant(v string, i, n int) string {
 	case "useglobal":
 		return fmt.Sprintf("local a%d = GShared%d\nprint(a%d, GFunc%d(1, 2, 3))\n", i, nxt, i, nxt)
 	case "require":
-		return fmt.Sprintf("local m%d = require(\"mod%d\")\nprint(m%d)\n", i, nxt, i)
+		return fmt.Sprintf("local m%d = require(\"%s\")\nprint(m%d)\n", i, c08Module(layout, nxt, i%2 == 1), i)
 	case "requiremissing":
 		return fmt.Sprintf("local m%d = require(\"nomod%d\")\nprint(m%d)\n", i, i, i)
 	case "annoclass":
@@ -54,17 +54,57 @@ func c08Variant(v string, i, n int) string {
 	return ""
 }
 
-func c08Rel(i int) string { return fmt.Sprintf("mod%d.lua", i) }
+// layouts: "flat" = mod<i>.lua in the root; "dup" = files in three directories that share base names
+// (a/mod0.lua, b/mod0.lua, c/d/mod0.lua, a/mod1.lua, ...), so that a module string can have several candidates.
+var c08DupDirs = []string{"a", "b", "c/d"}
+
+func c08RelL(layout string, i int) string {
+	if layout == "dup" {
+		return fmt.Sprintf("%s/mod%d.lua", c08DupDirs[i%3], i/3)
+	}
+	return fmt.Sprintf("mod%d.lua", i)
+}
+
+func c08IdxL(layout, rel string) int {
+	if layout == "dup" {
+		for k, d := range c08DupDirs {
+			if strings.HasPrefix(rel, d+"/mod") {
+				var j int
+				fmt.Sscanf(strings.TrimPrefix(rel, d+"/"), "mod%d.lua", &j)
+				return j*3 + k
+			}
+		}
+	}
+	var i int
+	fmt.Sscanf(rel, "mod%d.lua", &i)
+	return i
+}
+
+// c08Module is the module string a file uses to require file i (qualified: with its directory).
+func c08Module(layout string, i int, qualified bool) string {
+	if layout == "dup" {
+		if qualified {
+			return strings.ReplaceAll(c08DupDirs[i%3], "/", ".") + fmt.Sprintf(".mod%d", i/3)
+		}
+		return fmt.Sprintf("mod%d", i/3)
+	}
+	return fmt.Sprintf("mod%d", i)
+}
 
 type c08History struct {
 	N      int               `json:"files"`
+	Layout string            `json:"layout"`
 	Init   map[string]string `json:"initial_variants"`
 	Events []c08Event        `json:"events"`
 }
 
 func c08Gen(r *Rng, maxEvents int) c08History {
 	n := r.Range(3, 6)
-	h := c08History{N: n, Init: map[string]string{}}
+	h := c08History{N: n, Init: map[string]string{}, Layout: "flat"}
+	if r.Chance(1, 3) {
+		h.Layout = "dup"
+	}
+	c08Rel := func(i int) string { return c08RelL(h.Layout, i) }
 	exists := map[int]bool{}
 	open := map[int]bool{}
 	dirty := map[int]bool{}
@@ -233,9 +273,7 @@ func runC08(c *Ctx) {
 func c08Run(c *Ctx, h c08History, tag string) {
 	files := map[string]string{}
 	for rel, v := range h.Init {
-		var i int
-		fmt.Sscanf(rel, "mod%d.lua", &i)
-		files[rel] = c08Variant(v, i, h.N)
+		files[rel] = c08Variant(v, c08IdxL(h.Layout, rel), h.N, h.Layout)
 	}
 	ws := c.NewWorkspace(files)
 	defer ws.Remove()
@@ -254,11 +292,7 @@ func c08Run(c *Ctx, h c08History, tag string) {
 	dirty := map[string]bool{}
 	extSinceEdit := map[string]bool{} // an external change hit the file while it had unsaved edits
 	ver := 1
-	idx := func(rel string) int {
-		var i int
-		fmt.Sscanf(rel, "mod%d.lua", &i)
-		return i
-	}
+	idx := func(rel string) int { return c08IdxL(h.Layout, rel) }
 	fresh := func(extra map[string]string, openRels []string) (map[string][]string, map[string][]string, bool) {
 		cur := ws.Snapshot()
 		for k, v := range extra {
@@ -301,10 +335,10 @@ func c08Run(c *Ctx, h c08History, tag string) {
 		}
 		switch e.Op {
 		case "create":
-			ws.Write(e.File, c08Variant(e.Variant, idx(e.File), h.N))
+			ws.Write(e.File, c08Variant(e.Variant, idx(e.File), h.N, h.Layout))
 			return []interface{}{map[string]interface{}{"uri": ws.URI(e.File), "type": 1}}
 		case "change":
-			ws.Write(e.File, c08Variant(e.Variant, idx(e.File), h.N))
+			ws.Write(e.File, c08Variant(e.Variant, idx(e.File), h.N, h.Layout))
 			return []interface{}{map[string]interface{}{"uri": ws.URI(e.File), "type": 2}}
 		case "delete":
 			ws.Delete(e.File)
@@ -329,7 +363,7 @@ func c08Run(c *Ctx, h c08History, tag string) {
 			srv.DidOpen(ws.URI(e.File), buffers[e.File])
 		case "edit":
 			ver++
-			buffers[e.File] = c08Variant(e.Variant, idx(e.File), h.N)
+			buffers[e.File] = c08Variant(e.Variant, idx(e.File), h.N, h.Layout)
 			dirty[e.File] = true // a didChange without didSave: the server cannot know the text equals the disk
 			extSinceEdit[e.File] = false
 			srv.DidChangeFull(ws.URI(e.File), ver, buffers[e.File])
